@@ -1181,6 +1181,9 @@ def order_cases(tier):
                 for u in updates:
                     ops, key = build(nodes, perm, mode, front)
                     yield {"shape": sh, "ops": ops + [["update", key[u], 90], ["remove", 90]]}
+                    # onto the pixel id: refused (F22), nothing changes, the removal works as before
+                    ops, key = build(nodes, perm, mode, front)
+                    yield {"shape": sh, "ops": ops + [["update", key[u], P], ["remove", key[u]]]}
 
     kinds = "BXU"
     # chain of depth 2 + an independent derived component: a -> c -> d ; t -> e ; all 9 kind pairs
@@ -1237,10 +1240,13 @@ def order_cases(tier):
 class HistFam(Family):
     """add / remove / update_id / reorder_components histories on one dataset (integer data, + - *
     only); derived components are also added before their inputs.  Observables: `Data.components`
-    (as keys) after every operation; after every remove / update_id / reorder and at the end also
-    the value of every remaining component (or that evaluating it raises).  The Spec removes
-    exactly the dependency closure, renames identifiers everywhere, and reorders without changing
-    anything else."""
+    (as keys) after every operation; after every remove / update_id / reorder, after every call
+    that raised ValueError, and at the end also the value of every remaining component (or that
+    evaluating it raises).  The Spec removes exactly the dependency closure, renames identifiers
+    everywhere, and reorders without changing anything else; the calls the repaired `Data` refuses
+    (remove_component of a pixel component, update_id onto an id in use, add_component onto an id
+    in use for another kind of component: C17's F20-F22) are generated on purpose: the Spec demands
+    the ValueError and that nothing changed."""
     name = "hist"
     exhaustive = False
     batch = 100
@@ -1276,6 +1282,22 @@ class HistFam(Family):
                 yield {"shape": sh, "ops": st + adds + [["remove", victim]]}
             for old in [STORED0, STORED0 + 1, keymap["a"], keymap["c"]]:
                 yield {"shape": sh, "ops": st + adds + [["update", old, 90], ["remove", keymap["d"]]]}
+            # calls the repaired code refuses (F20 / F21 / F22: ValueError, nothing may change),
+            # each followed by a removal that must still take exactly the closure
+            for old in [STORED0, keymap["a"], PIX0, 77]:
+                for new in [STORED0 + 1, PIX0, keymap["c"]]:
+                    yield {"shape": sh, "ops": st + adds + [["update", old, new], ["remove", keymap["d"]]]}
+            ov = det_spec(sh, [False], "i", 5)
+            yield {"shape": sh, "ops": st + adds + [["update", PIX0, 90], ["add_s", 90, ov], ["remove", 90],
+                                                    ["update", 90, STORED0], ["remove", STORED0]]}
+            yield {"shape": sh, "ops": st + adds + [["add_s", keymap["a"], ov], ["add_s", PIX0, ov],
+                                                    ["radd_d", STORED0, ["b", "add", ["k", STORED0 + 1], ["c", ["i", 1]]]],
+                                                    ["add_d", STORED0 + 1, ["b", "add", ["k", STORED0], ["c", ["i", 1]]]],
+                                                    ["remove", keymap["b"]]]}
+            # accepted replacements under an id in use: new values / a new definition in place
+            yield {"shape": sh, "ops": st + adds + [["add_s", STORED0, ov], ["remove", keymap["c"]]]}
+            yield {"shape": sh, "ops": st + adds + [["radd_d", keymap["a"], ["b", "mul", ["k", STORED0 + 1], ["c", ["i", 3]]]],
+                                                    ["remove", STORED0], ["remove", PIX0]]}
         # component orders that do not respect the dependencies (reorder_components, forward adds)
         for c in order_cases(tier):
             yield c
@@ -1289,6 +1311,7 @@ class HistFam(Family):
             ops = [["add_s", STORED0 - 1, stored_spec(rng, sh, "i", lo=-3, hi=3)],
                    ["add_s", STORED0, stored_spec(rng, sh, "i", lo=-3, hi=3)]]
             live_prim = [STORED0] + [PIX0 + i for i in range(len(sh))]
+            coord = set(PIX0 + i for i in range(len(sh)))   # keys naming a coordinate component
             live_der = []
             fresh_s, fresh_d, fresh_n = STORED0 + 1, DERIVED0, 90
             L = rng.randint(2, maxlen)
@@ -1296,8 +1319,13 @@ class HistFam(Family):
                 r = rng.random()
                 live = live_prim + live_der
                 if r < 0.12 or not live:
-                    if rng.random() < 0.25 and [k for k in live_prim if k >= STORED0]:
-                        k = rng.choice([k for k in live_prim if k >= STORED0])   # overwrite values
+                    q = rng.random()
+                    if q < 0.25 and [k for k in live_prim if k >= STORED0]:
+                        # overwrite values (refused, F21, when an earlier update_id gave the key to
+                        # a pixel component)
+                        k = rng.choice([k for k in live_prim if k >= STORED0])
+                    elif q < 0.37 and live:
+                        k = rng.choice(live)     # any id in use: refused unless it names stored values
                     else:
                         k = fresh_s
                         fresh_s += 1
@@ -1323,10 +1351,15 @@ class HistFam(Family):
                         t = ["b", "add", t, ["k", 89]]
                     if t[0] != "b":
                         t = ["b", "add", t, ["c", ["i", 1]]]
-                    ops.append(["add_d", fresh_d, t])
-                    if 89 not in tree_keys(t):
-                        live_der.append(fresh_d)
-                    fresh_d += 1
+                    if rng.random() < 0.07 and live:
+                        # onto an id in use: a new definition in place when it names a derived
+                        # component (possibly reading itself), refused (F21) otherwise
+                        ops.append([rng.choice(["add_d", "radd_d"]), rng.choice(live), t])
+                    else:
+                        ops.append(["add_d", fresh_d, t])
+                        if 89 not in tree_keys(t):
+                            live_der.append(fresh_d)
+                        fresh_d += 1
                 elif r < 0.54:
                     # a derived component E added BEFORE the derived component D it reads (the
                     # unchecked route Data.add_component(DerivedComponent) accepts that); D follows
@@ -1368,20 +1401,26 @@ class HistFam(Family):
                     ops.append(["remove", k])
                     # (the generator does not track the closure; later ops may name removed ids,
                     # which is part of the scope: add_component_link then raises ValueError)
-                    if k in live_prim:
+                    if k in coord:
+                        pass                     # refused (F20): the coordinate component stays
+                    elif k in live_prim:
                         live_prim.remove(k)
                     if k in live_der:
                         live_der.remove(k)
                 else:
                     old = rng.choice(live + [fresh_d + 7])
-                    if rng.random() < 0.12 and len(live_prim) >= 2 and old in live_prim:
-                        new = rng.choice([k for k in live_prim if k != old])   # an identifier already in use
-                        live_prim.remove(old)
+                    if rng.random() < 0.15 and [k for k in live if k != old]:
+                        # an identifier already in use (stored, pixel or derived; `old` may be
+                        # unknown): refused (F22), nothing changes
+                        new = rng.choice([k for k in live if k != old])
                     else:
                         new = fresh_n
                         fresh_n += 1
                         if old in live_prim:
                             live_prim[live_prim.index(old)] = new
+                        if old in coord:
+                            coord.discard(old)
+                            coord.add(new)
                         if old in live_der:
                             live_der[live_der.index(old)] = new
                     if rng.random() < 0.05:
@@ -1421,8 +1460,13 @@ class HistFam(Family):
             kind = op[0][1:] if raw else op[0]
             if kind == "add_s":
                 b.cids.setdefault(op[1], cid_of(op[1]))
-                b.add_stored(op[1], op[2])
-                sx_ops.append(["add", op[1], ["P"] + canon_arr(b.data[b.cids[op[1]]], T)])
+                try:
+                    b.add_stored(op[1], op[2])
+                    arr = b.data[b.cids[op[1]]]
+                except ValueError:     # F21: the id is in use for a component of another kind
+                    err = "value-error"
+                    arr = make_array(op[2], b.shape)
+                sx_ops.append(["add", op[1], ["P"] + canon_arr(arr, T)])
             elif kind == "add_d":
                 for k in tree_keys(op[2]):
                     b.cids.setdefault(k, cid_of(k))
@@ -1448,13 +1492,19 @@ class HistFam(Family):
                     err = "value-error"
                 sx_ops.append(["radd" if raw else "add", op[1], ["U", list(op[2]), op[3], bool(op[4])]])
             elif kind == "remove":
-                b.data.remove_component(cid_of(op[1]))
+                try:
+                    b.data.remove_component(cid_of(op[1]))
+                except ValueError:     # F20: a pixel / world coordinate component
+                    err = "value-error"
                 sx_ops.append(["remove", op[1]])
                 valued = True
             elif kind == "update":
                 new = cid_of(op[2])
                 b.cids.setdefault(op[2], new)
-                b.data.update_id(cid_of(op[1]), new)
+                try:
+                    b.data.update_id(cid_of(op[1]), new)
+                except ValueError:     # F22: `new` already names another component
+                    err = "value-error"
                 sx_ops.append(["update", op[1], op[2]])
                 valued = True
             elif kind == "reorder":   # [op, listed keys, exact]
@@ -1468,7 +1518,9 @@ class HistFam(Family):
                 sx_ops.append(["reorder", list(op[1]), bool(op[2])])
                 valued = True
             keys = [b.key_of(c) for c in b.data.components]
-            steps.append(err if err else ([keys, values()] if valued else keys))
+            # a refused call is observed together with the component list and every value right
+            # after it: the Spec demands that it changed nothing
+            steps.append([err, [keys, values()]] if err else ([keys, values()] if valued else keys))
         final = values()
         # initial table: the pixel components exist as soon as the first component is added; the
         # driver starts from the empty table and the first add creates them (see `line`)
@@ -1486,7 +1538,7 @@ class HistFam(Family):
         init = []
         for i in range(nd):
             arr = np.broadcast_to(np.arange(case["shape"][i], dtype=np.int64).reshape([-1 if j == i else 1 for j in range(nd)]), tuple(case["shape"]))
-            init.append([PIX0 + i, ["P"] + canon_arr(arr, T)])
+            init.append([PIX0 + i, ["C"] + canon_arr(arr, T)])     # C = coordinate component
         return sx(["hist", [list(case["shape"]), init, sx_ops, "arith", []], pyout])
 
     def nontrivial(self, case, po):
@@ -1513,6 +1565,7 @@ PROP = Property(
               "C14.remove_closure", "C14.depClosure_iff_reach", "C14.remove_keeps_inputs", "C14.remove_absent", "C14.remove_spec",
               "C14.reorder_is_permutation", "C14.remove_order_invariant", "C14.reorder_preserves_values",
               "C14.update_id_preserves_order", "C14.update_id_preserves_values",
+              "C14.refusal_exact", "C14.refused_changes_nothing", "C14.call_refines_spec",
               "C14.update_id_breaks_dependents", "C14.parse_print"],
     families=[GramFam(), Bcl(), ExprFam(), ArithFam(), ULink(), ParsedFam(), HistFam()],
     trusted_base=[
@@ -1521,7 +1574,7 @@ PROP = Property(
         "the reference evaluation in harness/props/c14.py only tabulates the operators' graphs (numpy applied to the full arrays); every verdict is computed by the Lean Spec",
     ],
     assumptions=["pixel / world component values are inputs (read from the real dataset); their correctness is C04/C15"],
-    rule="exhaustive: all zero-stride patterns x operators x operand kinds (bcl), all leaf pairs x operators at depth 1 and all views of a fixed tree (expr/arith), all insertion orders of a 5-node dependency pattern x every removal, every component order (reorder_components / derived components added before their inputs) of chains of depth 2-3, a diamond, a pixel input and a cyclic pair x link kinds x every removal (hist); seeded random trees to depth 3/5, user functions, command strings, histories beyond; non-trivial = result with more than one element / history with a removal, update_id or reorder",
+    rule="exhaustive: all zero-stride patterns x operators x operand kinds (bcl), all leaf pairs x operators at depth 1 and all views of a fixed tree (expr/arith), all insertion orders of a 5-node dependency pattern x every removal, every component order (reorder_components / derived components added before their inputs) of chains of depth 2-3, a diamond, a pixel input and a cyclic pair x link kinds x every removal, the refused calls (pixel component as removal victim, update_id onto stored / pixel / derived ids from a stored, derived, pixel or unknown id, add_component across kinds) on every insertion order (hist); seeded random trees to depth 3/5, user functions, command strings, histories beyond; non-trivial = result with more than one element / history with a removal, update_id or reorder",
 )
 
 for _f, _share in zip(PROP.families, (0.4, 1.0, 2.0, 1.0, 0.7, 1.5, 1.2)):
